@@ -1103,6 +1103,14 @@ THEOREMS: list[str] = [
     "HappyModel.C11.conv_rounds",
     "HappyModel.C11.conv_exists",
     "HappyModel.C11.conv_exists_example",
+    # per-link FIFO implies noRegressRun (ProgFifo.lean, ProgFifoInv.lean, ProgFifoRun.lean)
+    "HappyModel.C11.new_ack",
+    "HappyModel.C11.arSrc_step",
+    "HappyModel.C11.regress_of_fifo",
+    "HappyModel.C11.kf_step",
+    "HappyModel.C11.noRegress_of_fifo",
+    "HappyModel.C11.stable_leader_commits_fifo",
+    "HappyModel.C11.fifo_example",
     "HappyModel.C11.miLen_step",
     "HappyModel.C11.est_step",
     "HappyModel.C11.sync_step",
@@ -1146,8 +1154,10 @@ C11.partial_theorems = {
         "one-round versions (stable_leader_commits, `ackedRun`) instead assume the followers of Q in sync at the submit (`inSync`, kept for ever after "
         "under stability by `sync_step`); (2) the model has no clock: that 'delays well "
         "below the election timeout on a fault-free network' yield the schedule predicates (`stableRun`: no term above t reaches L :: Q; `ackedRun`: the "
-        "entry is delivered to each p in Q and p's reply to L; `noRegressRun`: an older acknowledgement does not overtake a newer one — per-link FIFO "
-        "implies it, and without it the claim is false for n = 5; `toldRun`: a later AppendEntries with leader_commit >= k is delivered) is established "
+        "entry is delivered to each p in Q and p's reply to L; `noRegressRun`: an older acknowledgement does not overtake a newer one — without it the claim is false for n = 5; it is now DERIVED from per-link FIFO: "
+        "`fifoRun` (every message handed to a live destination has a larger id than every message delivered before on the same (src,dst) link) implies it along "
+        "stable runs from in-sync followers (`noRegress_of_fifo`, invariant `KF`/`kf_step`), and `stable_leader_commits_fifo` is the theorem with the FIFO hypothesis — "
+        "what the real Network gives with a constant latency per link; `toldRun`: a later AppendEntries with leader_commit >= k is delivered) is established "
         "by the generated `stable` family of the harness and judged by Spec.stableOk on the implementation's transcript, not proved; "
         "(3) many commands in one theorem: progress is proved per submitted command (any number of other submits may be interleaved), and "
         "stableOk_settled turns 'every node's last_applied = len(L's log)' into the judge's clause, but the composition over all submits of a run is "
@@ -1169,6 +1179,9 @@ C11.hypotheses = [
     "node of Q whose match_index is already >= k); for stable_all_apply additionally `toldRun … p` (some step delivers to a live p an AppendEntries of term t from L "
     "with k <= prev+len(entries) and leader_commit >= k). `progress_needs_fairness` / `progress_needs_stability` (decided 3-node runs) show the conclusion fails "
     "when `ackedRun` resp. `stableRun` is dropped.",
+    "stable_leader_commits_fifo: as stable_leader_commits with `fifoRun v [] s (submit :: as)` in place of `noRegressRun` (decidable: walking the action list with the list of "
+    "envelopes delivered so far, each delivery to a live destination must carry a larger id than every earlier delivery on the same (src, dst) link; re-deliveries are thereby excluded); "
+    "the FIFO form is proved for the in-sync variant only (the `_conv` variant still takes `noRegressRun`).",
     "stable_leader_commits_conv, stable_leader_commits_conv_obs (bundle StableConv): as StableFair without `inSync` — only p < n, p != L for p in Q — and with "
     "`convRun … p` in place of `ackedRun`: a step delivers to a live p an AppendEntries of term t from L with k <= prev+len(entries); then, alternately, the message "
     "sent in the previous step of the conversation is delivered to its (live) destination, until the message delivered to L is a successful acknowledgement. "
